@@ -73,6 +73,11 @@ TEXT = {
         note="Single deviations exhaustively; multi-fault sequences are not claimed. The differential oracle compares content (names, specs, labels, owners, revision claims, parent status) modulo resourceVersions and UID incarnations.",
         technique="exhaustive fault and crash-point enumeration (deviation bound 1) with differential oracle against the uninterrupted execution",
     ),
+    "C12": dict(
+        level="Exhaustive single-fault enumeration (and bounded exhaustive pairs) over rich syncs of both controller kinds on the real code, driven through the real work-queue protocol: non-benign failure => error + AddRateLimited and no Forget; hook 429 (composite) => AddAfter(Retry-After) and no error; a child that keeps failing blocks neither the other children nor the status write; no panic; after the faults stop the cluster converges to the fault-free final state.",
+        note="Deviation bound 1 (2 in the thorough tier). Benign races at tolerated positions are not asserted either way.",
+        technique="exhaustive fault-position x fault-kind enumeration (deviation-bounded exploration) with differential convergence oracle",
+    ),
 }
 
 PENDING_REASON = "check not built yet in this session (planned in DESIGN.md §4); no claim is made until its check runs clean on the unchanged tree"
